@@ -84,9 +84,19 @@ type T = LOpen<u8, Sig>;
 
 /// run the program through the real Var interface
 pub fn run_real(p: &Prog) -> Result<BuildResult<u8, Sig>, String> {
+    run_real_with(p, false)
+}
+
+/// `keep_weak`: the closure leaves a `Weak` reference to the builder state behind (not a variable handle: it cannot
+/// keep the state alive), which must not make building fail
+pub fn run_real_with(p: &Prog, keep_weak: bool) -> Result<BuildResult<u8, Sig>, String> {
+    let weaks: RefCell<Vec<std::rc::Weak<RefCell<T>>>> = RefCell::new(vec![]);
     let leaked: RefCell<Vec<Var<u8, Sig>>> = RefCell::new(vec![]);
     let r = catch(|| {
         build(|state: &Rc<RefCell<T>>| {
+            if keep_weak {
+                weaks.borrow_mut().push(Rc::downgrade(state));
+            }
             let mut vars: Vec<Var<u8, Sig>> = vec![];
             for st in &p.stmts {
                 match st {
@@ -131,6 +141,7 @@ pub fn run_real(p: &Prog) -> Result<BuildResult<u8, Sig>, String> {
         })
     });
     drop(leaked);
+    drop(weaks);
     r
 }
 
@@ -275,6 +286,17 @@ pub fn check_program<B: StrictOps>(p: &Prog, loc: &mut Local) {
         Err(m) => return loc.violation("build:panic", json!({"case": case(), "panic": m})),
         Ok(b) => b,
     };
+    // the same program with a weak reference to the builder state left behind: same verdict, same term
+    if !p.leak {
+        loc.trans(1);
+        match (run_real_with(p, true), &built) {
+            (Ok(Ok(tw)), Ok(t)) if tw == *t => {}
+            (Ok(Ok(_)), Ok(_)) => return loc.violation("build:term-depends-on-a-weak-reference", case()),
+            (Ok(Err(_)), Ok(_)) => return loc.violation("build:failed-although-only-a-weak-reference-outlives-the-builder", case()),
+            (Err(m), _) => return loc.violation("build:panic", json!({"case": case(), "panic": m, "weak_reference_kept": true})),
+            _ => {}
+        }
+    }
     let term: T = match (built, p.leak && !p.stmts.is_empty()) {
         (Ok(t), false) => t,
         (Err(rc), true) => {
